@@ -312,6 +312,138 @@ print(json.dumps(out))
 '''
 
 
+# ---- the process environment ----------------------------------------------------------------
+# "regardless of ... the process it runs in": the environment answers a build could consult are put behind one seam
+# (a child interpreter per answer) and every single deviation from the default answer is explored.
+
+ENV_CHILD = r'''
+import json, os, sys
+sys.dont_write_bytecode = True
+spec = json.loads(sys.argv[1])
+if spec.get("clock"):
+    import time, datetime
+    t0 = float(spec["clock"])
+    time.time = lambda: t0
+    time.time_ns = lambda: int(t0 * 1e9)
+    time.localtime = lambda *a, _f=time.localtime: _f(t0)
+    time.gmtime = lambda *a, _f=time.gmtime: _f(t0)
+    class _DT(datetime.datetime):
+        @classmethod
+        def now(cls, tz=None): return cls.fromtimestamp(t0, tz)
+        @classmethod
+        def utcnow(cls): return cls.utcfromtimestamp(t0)
+        @classmethod
+        def today(cls): return cls.fromtimestamp(t0)
+    class _D(datetime.date):
+        @classmethod
+        def today(cls): return cls.fromtimestamp(t0)
+    datetime.datetime, datetime.date = _DT, _D
+if spec.get("umask") is not None:
+    os.umask(spec["umask"])
+sys.argv = [spec.get("argv0", "-c")]
+sys.path.insert(0, %(verif)r); sys.path.insert(0, %(src)r)
+from vf import core; core.import_guard()
+from vf.checks import c08
+out = {}
+confs = list(c08.configurations())
+for idx in spec["confs"]:
+    conf = confs[idx]
+    files = c08.run_build(conf, controlled=False)
+    out[json.dumps(conf, sort_keys=True)] = [[n, h] for n, _c, h in files]
+print(json.dumps(out))
+'''
+
+ENV_ANSWERS = [
+    ('default', {}),
+    # what the name of the Dezyne source file denotes in the working directory of the process
+    ('cwd:regular-file', {'cwd': 'regular'}), ('cwd:symlink-to-other-name', {'cwd': 'symlink'}),
+    ('cwd:dangling-symlink', {'cwd': 'dangling'}), ('cwd:directory', {'cwd': 'directory'}),
+    ('cwd:is-a-symlinked-directory', {'cwd': 'linked-dir'}), ('cwd:read-only', {'cwd': 'readonly'}),
+    # environment variables
+    ('env:LANG=C', {'env': {'LANG': 'C', 'LC_ALL': 'C'}}), ('env:LANG=tr_TR', {'env': {'LANG': 'tr_TR.UTF-8', 'LC_ALL': 'tr_TR.UTF-8'}}),
+    ('env:PYTHONUTF8=0', {'env': {'PYTHONUTF8': '0', 'LC_ALL': 'POSIX'}}), ('env:PYTHONIOENCODING', {'env': {'PYTHONIOENCODING': 'latin-1'}}),
+    ('env:HOME+USER', {'env': {'HOME': '/nonexistent', 'USER': 'somebody', 'LOGNAME': 'somebody', 'USERNAME': 'somebody'}}),
+    ('env:empty', {'env': None}), ('env:TZ', {'env': {'TZ': 'Pacific/Kiritimati'}}),
+    ('env:SOURCE_DATE_EPOCH', {'env': {'SOURCE_DATE_EPOCH': '0'}}), ('env:COLUMNS', {'env': {'COLUMNS': '20', 'LINES': '5'}}),
+    ('env:TMPDIR', {'env': {'TMPDIR': '/nonexistent', 'TEMP': '/nonexistent'}}), ('env:PYTHONOPTIMIZE', {'env': {'PYTHONOPTIMIZE': '2'}}),
+    ('env:DZN', {'env': {'DZN': '/x', 'DZNPY': '1', 'DEBUG': '1', 'CI': 'true', 'NO_COLOR': '1'}}),
+    # clock, file mode mask, program name
+    ('clock:epoch', {'clock': 1.0}), ('clock:2038', {'clock': 2147483647.0}), ('clock:leap-day', {'clock': 1709210096.0}),
+    ('umask:000', {'umask': 0}), ('umask:777', {'umask': 0o777}), ('argv0', {'argv0': '/usr/bin/dzn-shellgen.py'}),
+]
+
+
+def env_child(answer, conf_indices):
+    import shutil  # pylint: disable=import-outside-toplevel
+    import tempfile  # pylint: disable=import-outside-toplevel
+    name, spec = answer
+    spec = dict(spec, confs=conf_indices)
+    top = tempfile.mkdtemp(prefix='vf_c08_env_')
+    try:
+        cwd = os.path.join(top, 'work')
+        os.mkdir(cwd)
+        kind = spec.get('cwd')
+        target = os.path.join(cwd, 'M.dzn')
+        if kind == 'regular':
+            with open(target, 'w', encoding='utf-8') as fh:
+                fh.write('component X {}')
+        elif kind == 'symlink':
+            os.mkdir(os.path.join(cwd, 'cas'))
+            with open(os.path.join(cwd, 'cas', '3f9a1c.blob'), 'w', encoding='utf-8') as fh:
+                fh.write('component X {}')
+            os.symlink(os.path.join('cas', '3f9a1c.blob'), target)
+        elif kind == 'dangling':
+            os.symlink('Nowhere.dzn', target)
+        elif kind == 'directory':
+            os.mkdir(target)
+        elif kind == 'linked-dir':
+            os.symlink(cwd, os.path.join(top, 'Other.dzn'))
+            cwd = os.path.join(top, 'Other.dzn')
+        elif kind == 'readonly':
+            os.chmod(cwd, 0o555)
+        if spec.get('env', {}) is None:
+            env = {'PATH': os.environ.get('PATH', '')}
+        else:
+            env = dict(os.environ)
+            env.update(spec.get('env', {}))
+        for key in ('VF_REPO',):
+            if key in os.environ:
+                env[key] = os.environ[key]
+        env['PYTHONHASHSEED'] = '0'
+        code = ENV_CHILD % {'verif': VERIF, 'src': REPO_SRC}
+        res = subprocess.run([sys.executable, '-c', code, json.dumps(spec)], env=env, cwd=cwd, capture_output=True,
+                             text=True, timeout=600, check=False)
+        if res.returncode != 0:
+            return name, None, res.stderr[-600:]
+        return name, json.loads(res.stdout.strip().splitlines()[-1]), ''
+    finally:
+        os.chmod(os.path.join(top, 'work'), 0o755)
+        shutil.rmtree(top, ignore_errors=True)
+
+
+def env_conf_indices(nconfs):
+    return sorted({0, 2, nconfs // 2, nconfs - 1})
+
+
+def work_env(job):
+    answer, idxs = job
+    return env_child(answer, idxs)
+
+
+def judge_env(case):
+    answer = [a for a in ENV_ANSWERS if a[0] == case['answer']][0]
+    idxs = env_conf_indices(len(list(configurations())))
+    _n, ref, err0 = env_child(ENV_ANSWERS[0], idxs)
+    _n, got, err = env_child(answer, idxs)
+    if ref is None:
+        raise HarnessError(f'default environment child failed: {err0}')
+    if got is None:
+        return [(f'environment-breaks-build:{case["answer"]}', err)]
+    if got != ref:
+        return [(f'environment-changes-output:{case["answer"]}', 'differs from the default environment')]
+    return []
+
+
 def child_run(seed):
     env = dict(os.environ)
     env['PYTHONHASHSEED'] = str(seed)
@@ -328,6 +460,8 @@ def work_child(seed):
 
 
 def judge_child(case):
+    if 'answer' in case:
+        return judge_env(case)
     data = child_run(case['seed'])
     ref = child_run(0)
     key = json.dumps(case['conf'], sort_keys=True)
@@ -366,6 +500,26 @@ def explore(ctx):
                                   f'PYTHONHASHSEED={seed} insertion {"reversed" if rev else "forward"}: files {diff} '
                                   f'differ from the explored output | conf={key}',
                                   {'child': True, 'seed': seed, 'conf': json.loads(key)})
+    # every single deviation from the default environment answer
+    idxs = env_conf_indices(len(confs))
+    nenv = 0
+    for name, got, err in pmap(work_env, [(a, idxs) for a in ENV_ANSWERS]):
+        nenv += 1
+        if got is None:
+            if name == 'default':
+                raise HarnessError(f'default environment child failed: {err}')
+            ctx.violation(f'environment-breaks-build:{name}', f'environment answer {name}: the build fails: {err}',
+                          {'child': True, 'answer': name})
+            continue
+        for key, files in got.items():
+            nchild += 1
+            want = [[n, h] for n, h in expected[key]]
+            if files != want:
+                diff = [f'{b[0]} (expected {a[0]})' if a[0] != b[0] else a[0] for a, b in zip(want, files) if a != b]
+                ctx.violation(f'environment-changes-output:{name}',
+                              f'environment answer {name}: files {diff} differ from the explored output | conf={key}',
+                              {'child': True, 'answer': name})
+    ctx.extra['environment_answers'] = nenv
     ctx.evaluations += nchild
     ctx.extra['hash_seed_child_builds'] = nchild
     ctx.extra['real_iteration_orders_observed'] = len(orders)
@@ -376,7 +530,9 @@ def explore(ctx):
     ctx.rule = ('for every configuration: all sequences of set-iteration permutations with at most d non-identity '
                 'choices (stateless DFS over choice prefixes), each executed as a real build; states = executions; '
                 'non-trivial = executions with at least one non-identity permutation; plus child interpreters per '
-                'PYTHONHASHSEED x insertion order compared with the explored output')
+                'PYTHONHASHSEED x insertion order compared with the explored output; plus one child interpreter per single '
+                'deviation from the default environment answer (what the source file name denotes in the working '
+                'directory, environment variables, clock, umask, program name)')
     ctx.bounds = {'deviation_bound': '2 (3 on two configurations)' if th else '1 (2 on two configurations)',
                   'hash_seeds': len(seeds), 'configurations': len(confs)}
     ctx.assumptions += ['only iteration over sets of port names is a source of nondeterminism in a build (dicts keep '
